@@ -148,11 +148,17 @@ package coregex
 //@   ensures forall k :: 0 <= k && k + 1 < len(result) ==> result[k][1] <= result[k+1][0] && result[k][0] < result[k+1][0]
 //@   ensures n > 0 ==> len(result) <= n
 //@   ensures fresh(result) || result == nil
+// ... and how many: stdlib's first n matches (what AppendAllStringIndex is PROVED to produce; assumed for this wrapper)
+//@   ensures genericEnum(r.engine) ==> len(result) == cnt(r.engine, r.engine.longest, stringBytes(s), 0, false, normB(n))
 
 //@ func (*Regex).Split
 //@   props C08 C07 C05
 //@   requires regexOK(r) && len(s) <= 140737488355328
 //@   modifies @searchState
+// Split works from stdlib's first n matches (not n-1: a match ending at offset 0 yields no piece) ...
+//@   after call FindAllStringIndex: genericEnum(r.engine) ==> len(lastcall) == cnt(r.engine, r.engine.longest, stringBytes(s), 0, false, normB(n))
+// ... and every processed match but a leading one that ends at offset 0 contributes exactly one piece
+//@   loop 1: invariant len(pieces) == rangeindex + 1 - ite(rangeindex >= 0 && matches[0][1] == 0, 1, 0)
 //@   ensures n == 0 ==> result == nil
 //@   ensures n > 0 ==> len(result) <= n
 //@   ensures n == 1 && len(s) > 0 ==> len(result) == 1 && base(result[0]) == base(s) && off(result[0]) == off(s) && len(result[0]) == len(s)
@@ -242,7 +248,6 @@ package coregex
 //@ uninterpreted spec func anyJ() int
 //@ func (*Regex).ReplaceAllLiteral
 //@   props C08 C07
-//@   opt timeout_factor=4
 //@   requires regexOK(r) && len(src) <= 140737488355328
 //@   modifies @searchState
 //@   ensures len(result) == rlen(r.engine, r.engine.longest, src, 0, false, 0, len(repl))
@@ -257,6 +262,10 @@ package coregex
 //@   after call FindIndicesAt: (lastcall2 && anyJ() >= len(result)) ==> rbyte(r.engine, r.engine.longest, src, repl, pos, lastMatchEnd == pos, lastEnd, (anyJ() - len(result))) == ite(lastcall0 == lastcall1 && lastcall0 == lastMatchEnd, rbyte(r.engine, r.engine.longest, src, repl, nextPos(src, pos), false, lastEnd, (anyJ() - len(result))), ite((anyJ() - len(result)) < lastcall0 - lastEnd, src[lastEnd + (anyJ() - len(result))], ite((anyJ() - len(result)) < lastcall0 - lastEnd + len(repl), repl[(anyJ() - len(result)) - (lastcall0 - lastEnd)], rbyte(r.engine, r.engine.longest, src, repl, ite(lastcall0 == lastcall1, nextPos(src, lastcall1), lastcall1), lastcall0 != lastcall1, lastcall1, (anyJ() - len(result)) - (lastcall0 - lastEnd) - len(repl)))))
 //@   loop 1: exit 0 <= anyJ() ==> rbyte(r.engine, r.engine.longest, src, repl, 0, false, 0, anyJ()) == ite(anyJ() < len(result), result[anyJ()], rbyte(r.engine, r.engine.longest, src, repl, pos, lastMatchEnd == pos, lastEnd, anyJ() - len(result)))
 //@   loop 1: exit 0 <= anyJ() ==> rbyte(r.engine, r.engine.longest, src, repl, 0, false, 0, anyJ()) == ite(anyJ() < len(result), result[anyJ()], src[lastEnd + anyJ() - len(result)])
+//@   loop 1: ghost n0 = len(result)
+//@   loop 1: ghost r0 = result
+//@   loop 1: lemma len(result) >= n0
+//@   loop 1: lemma (0 <= anyJ() && anyJ() < n0) ==> result[anyJ()] == r0[anyJ()]
 //@   loop 1: invariant !matched ==> pos == 0 && lastEnd == 0 && len(result) == 0 && lastMatchEnd == -1
 //@   loop 1: invariant matched ==> refFound(r.engine, r.engine.longest, src, 0) && fresh(result)
 //@   loop 1: invariant len(result) + rlen(r.engine, r.engine.longest, src, pos, lastMatchEnd == pos, lastEnd, len(repl)) == rlen(r.engine, r.engine.longest, src, 0, false, 0, len(repl))
